@@ -400,6 +400,58 @@ theorem src_backoff_iter_eq_model (fuel n : Nat) (r : Nat → α) (p : Params α
             PyRtC15.float, hl, hk, valsFrom_take, valsFrom_len, e2]
           tie_split
 
+/-! ## 5. `backoff`: `list(backoff_iter(...))` -/
+
+/-- what `backoff` returns as the runtime reports it: `list` asks `fuel` times, so it has seen the end of the
+    generator iff fewer than `fuel` values came (else `OutOfFuel`, like a default-count loop that needs more fuel) -/
+def listed (fuel : Nat) : Outcome α → Except PyExc (List α)
+  | .valueError => .error .ValueError
+  | .fuelOut => .error .OutOfFuel
+  | .finite vals => if vals.length < fuel then .ok vals else .error .OutOfFuel
+  | .endless _ => .error .OutOfFuel
+
+omit [LE α] [LT α] [DecidableLE α] [DecidableLT α] [BEq α] [Mul α] [Sub α] [Neg α] [OfNat α 0] [OfNat α 1] in
+/-- `list(g)` of a generator that shows what the model's outcome shows -/
+theorem runFn_listOf_view (f : Nat) (o : Outcome α) (g : Nat → List α × Stop) (hg : g (f + 1) = view (f + 1) o) :
+    runFn (α := α) (G.ofExcept (listOf (f + 1) g)) = listed (f + 1) o := by
+  cases o with
+  | valueError => simp [listOf, hg, runFn, listed]
+  | fuelOut => simp [listOf, hg, runFn, listed]
+  | endless val => simp [listOf, hg, runFn, listed]
+  | finite vals =>
+    by_cases hl : vals.length < f + 1
+    · simp [listOf, hg, runFn, listed, hl, List.take_of_length_le (Nat.le_of_lt hl)]
+    · simp [listOf, hg, runFn, listed, hl]
+
+theorem src_backoff_eq_model (fuel : Nat) (r : Nat → α) (p : Params α) (hf : 0 < fuel) :
+    Src.iterutils.backoff fuel r p.start p.stop (countArg p.count) p.factor p.jitter
+      = listed fuel (C15.backoff fuel r p) := by
+  have hi := src_backoff_iter_eq_model fuel fuel r p (Nat.le_refl _)
+  obtain ⟨f, rfl⟩ : ∃ f, fuel = f + 1 := ⟨fuel - 1, by omega⟩
+  change _ = view (f + 1) (backoffIter (f + 1) r p) at hi
+  obtain ⟨start, stop, factor, count, jitter⟩ := p
+  cases count with
+  | rep => simp [Src.iterutils.backoff, runFn, countArg, C15.backoff, listed]
+  | dflt =>
+    simp only [countArg] at hi
+    simp [Src.iterutils.backoff, countArg, C15.backoff]
+    exact runFn_listOf_view f _ (fun n => backoff_iter (f + 1) n r start stop CountV.none factor jitter) hi
+  | num k =>
+    simp only [countArg] at hi
+    simp [Src.iterutils.backoff, countArg, C15.backoff]
+    exact runFn_listOf_view f _ (fun n => backoff_iter (f + 1) n r start stop (CountV.int k) factor jitter) hi
+
+/-- with enough fuel `backoff` is the model's list, or its ValueError -/
+theorem src_backoff_finite (fuel : Nat) (r : Nat → α) (p : Params α) (vals : List α)
+    (h : C15.backoff fuel r p = .finite vals) (hl : vals.length < fuel) :
+    Src.iterutils.backoff fuel r p.start p.stop (countArg p.count) p.factor p.jitter = .ok vals := by
+  rw [src_backoff_eq_model fuel r p (by omega), h]; simp [listed, hl]
+
+theorem src_backoff_valueError (fuel : Nat) (r : Nat → α) (p : Params α) (hf : 0 < fuel)
+    (h : C15.backoff fuel r p = .valueError) :
+    Src.iterutils.backoff fuel r p.start p.stop (countArg p.count) p.factor p.jitter = .error .ValueError := by
+  rw [src_backoff_eq_model fuel r p hf, h]; rfl
+
 end
 
 /-! non-vacuity: the hypothesis `n ≤ fuel` is satisfiable and both sides are the doc-test values at `α = Int`
@@ -412,5 +464,10 @@ example : Src.iterutils.backoff_iter (α := Int) 10 3 (fun _ => 0) 0 5 (countArg
     Src.iterutils.backoff_iter (α := Int) 10 3 (fun _ => 0) 7 5 (countArg (.num 2)) 3 0 = ([], .raised .ValueError) ∧
     Src.iterutils.backoff_iter (α := Int) 10 3 (fun i => i) 4 9 (countArg (.num 2)) 2 1 = ([4, 0], .returned) := by
   decide
+
+example : Src.iterutils.backoff (α := Int) 10 (fun _ => 0) 1 10 (countArg .dflt) 2 0 = .ok [1, 2, 4, 8, 10] ∧
+    Src.iterutils.backoff (α := Int) 10 (fun _ => 0) 1 10 (countArg .rep) 2 0 = .error .ValueError ∧
+    Src.iterutils.backoff (α := Int) 10 (fun _ => 0) 7 5 (countArg (.num 2)) 2 0 = .error .ValueError :=
+  ⟨rfl, rfl, rfl⟩
 
 end C15
